@@ -129,6 +129,43 @@ func directedC19(r *lib.Run, rp *reporter) {
 	}
 }
 
+// heldFrames: the framed content handed to the uTP writer stays in use for the whole transfer while other transfers
+// are framed meanwhile. A frame the protocol returned must not change when the next one is built, in either version.
+func heldFrames(r *lib.Run, rp *reporter) {
+	rng := r.RNG("held-frames", 0)
+	hub := pnode.NewHub()
+	A, err := hub.StartNode(pnode.NodeOpts{Key: pnode.NewKey(rng), Addr: pnode.Addr4(10, 19, 40, 1, 9000), Versions: []uint8{0, 1}, VersionsTTL: time.Hour, MaxUtp: 8, RespTimeout: time.Second, Storage: &storage.MockStorage{Db: map[string][]byte{}}})
+	if err != nil {
+		r.FloorMiss("held frames: node: %v", err)
+		return
+	}
+	defer A.Stop()
+	for vi, vs := range [][]uint8{{0}, {0, 1}} {
+		peer := pnode.SignedNode(pnode.NewKey(rng), pnode.Addr4(10, 19, 40, byte(2+vi), 9000).Addr(), 9000, 1, pnode.VersionsEntry(vs))
+		type held struct{ got, snap, payload []byte }
+		var hs []held
+		for k := 0; k < 40; k++ {
+			payload := randBytes(rng, []int{1, 100, 2000, 40000, 40000, 300000}[k%6])
+			f, err := A.P.VerifEncodeUtpContent(peer, payload)
+			r.Eval(1)
+			if err != nil {
+				rp.dev("framing:encode-error", fmt.Sprintf("framing %d bytes for a peer advertising %v failed: %v", len(payload), vs, err), nil)
+				return
+			}
+			hs = append(hs, held{f, append([]byte(nil), f...), payload})
+			for i := range hs {
+				if string(hs[i].got) != string(hs[i].snap) {
+					rp.dev("framing:frame-changed-while-held", fmt.Sprintf("the frame built for a %d-byte item (peer advertising %v) changed when a later item was framed, %d frames later", len(hs[i].payload), vs, len(hs)-1-i),
+						map[string]any{"peer_advertises": intList(vs), "item_bytes": len(hs[i].payload), "frames_later": len(hs) - 1 - i})
+					return
+				}
+			}
+		}
+		r.Count("held_frames_checked", len(hs))
+		r.Distinct(fmt.Sprintf("held-frames|%v", vs))
+	}
+}
+
 func countHeld(keys [][]byte, held []byte) int {
 	n := 0
 	for _, k := range keys {
